@@ -77,6 +77,12 @@ class NpProxy:
     def __getattr__(self, name):
         return getattr(_np, name)
 
+    def _dt(self, dtype):
+        return dtype._real if isinstance(dtype, _FakeUintType) else dtype
+
+    def iinfo(self, t):
+        return _np.iinfo(self._dt(t))
+
     # ---- constants that must be exact
     @property
     def pi(self):
@@ -86,6 +92,7 @@ class NpProxy:
 
     # ---- allocation
     def zeros(self, shape, dtype=float, **kw):
+        dtype = self._dt(dtype)
         if _active() and _float_dtype(dtype):
             a = _np.empty(shape, dtype=object)
             a.fill(0.0)
@@ -107,6 +114,7 @@ class NpProxy:
         return _np.full(shape, fill_value, dtype=dtype, **kw)
 
     def empty(self, shape, dtype=float, **kw):
+        dtype = self._dt(dtype)
         if _active() and _float_dtype(dtype):
             a = _np.empty(shape, dtype=object)
             ctx = V.get_context()
